@@ -44,7 +44,7 @@ type Plan struct {
 	Restart int      `json:"restart,omitempty"` // aggregator (1-based) that restarts between prep rounds, 0 none
 }
 
-var faults = []string{"", "", "", "input-flip", "input-trunc", "input-swap", "public-flip", "nonce", "prepshare-flip", "prepshare-swap", "prepmsg-flip", "malicious-share", "lost", "client-invalid-measurement", "prepmsg-blank"}
+var faults = []string{"", "", "", "input-flip", "input-trunc", "input-swap", "public-flip", "nonce", "prepshare-flip", "prepshare-swap", "prepmsg-flip", "malicious-share", "lost", "client-invalid-measurement", "prepmsg-blank", "adversarial-encoding", "adversarial-encoding"}
 
 func gen(r *core.PRNG, tier string) any {
 	p := &Plan{Seed: r.Uint64()}
@@ -220,6 +220,9 @@ func runVDAF[M, A, AggShare, InputShare, OutShare, PrepShare, PrepState any](
 	meas func(seed uint64, edge string) M,
 	plain func(accepted []M) A,
 	invalid func(seed uint64) (M, bool), // a measurement outside the valid set, if the type has one
+	// adversarial: a malicious client that encodes m, moves the encoding out of the valid set
+	// (variant), and runs the honest prover and sharding on the result (nil: not available)
+	adversarial func(m M, variant int, nonce *count.Nonce, rnd []byte) (count.PublicShare, []InputShare, string, error),
 ) {
 	par := v.Params()
 	shares := int(par.Shares())
@@ -256,7 +259,20 @@ func runVDAF[M, A, AggShare, InputShare, OutShare, PrepShare, PrepState any](
 		var pub count.PublicShare
 		var inputs []InputShare
 		var err error
-		pan, pv, stk := core.Try(func() { pub, inputs, err = vc.Shard(m, &nonce, randb) })
+		advWhat := ""
+		pan, pv, stk := core.Try(func() {
+			if rep.Fault == "adversarial-encoding" && adversarial != nil {
+				pub, inputs, advWhat, err = adversarial(m, rep.Pos, &nonce, randb)
+				return
+			}
+			pub, inputs, err = vc.Shard(m, &nonce, randb)
+		})
+		if rep.Fault == "adversarial-encoding" && (adversarial == nil || advWhat == "") {
+			rep.Fault = "" // no way to leave the valid set for this instance / variant: an honest report
+			if adversarial != nil && !pan && err == nil && inputs == nil {
+				pan, pv, stk = core.Try(func() { pub, inputs, err = vc.Shard(m, &nonce, randb) })
+			}
+		}
 		if pan {
 			run.Violate(comp+".Shard", core.PanicClass(pv), "report %d (measurement outside the valid set: %v): %s at %s", ri, badMeas, pv, stk)
 			return
@@ -467,7 +483,7 @@ func runVDAF[M, A, AggShare, InputShare, OutShare, PrepShare, PrepState any](
 			run.Fault("transport:" + fault)
 			run.T(fault, fmt.Sprint(rejected))
 			if !rejected {
-				run.Violate(comp, "accepts-report-after-"+fault, "report %d with fault %s on aggregator %d's link (pos %d) was accepted by all %d aggregators", ri, fault, agg, rep.Pos, shares)
+				run.Violate(comp, "accepts-report-after-"+fault, "report %d with fault %s %s on aggregator %d's link (pos %d) was accepted by all %d aggregators", ri, fault, advWhat, agg, rep.Pos, shares)
 				return
 			}
 		} else {
@@ -532,6 +548,51 @@ func runVDAF[M, A, AggShare, InputShare, OutShare, PrepShare, PrepState any](
 	got2, err := v.Unshard(final, uint(len(accepted)))
 	if err != nil || !reflect.DeepEqual(*got2, want) {
 		run.Violate(comp+".Unshard", "second-unshard-differs", "err=%v got %v want %v", err, got2, want)
+	}
+}
+
+// fpElt: a field element that can be set to a small integer.
+type fpElt[E any] interface {
+	*E
+	SetUint64(uint64) error
+}
+
+// advClient builds the malicious client of one instance: encode the (valid) measurement,
+// put one element outside {0,1} or apply the instance-specific move, then prove and shard.
+func advClient[M any, IS any, V ~[]E, E any, PE fpElt[E]](
+	encode func(M) (V, error),
+	shard func(V, *count.Nonce, []byte) (count.PublicShare, []IS, error),
+	extra func(enc V, set func(i int, v uint64)) string,
+) func(M, int, *count.Nonce, []byte) (count.PublicShare, []IS, string, error) {
+	return func(m M, variant int, nonce *count.Nonce, rnd []byte) (count.PublicShare, []IS, string, error) {
+		enc, err := encode(m)
+		if err != nil || len(enc) == 0 {
+			return nil, nil, "", err
+		}
+		set := func(i int, v uint64) { _ = PE(&enc[i]).SetUint64(v) }
+		what := ""
+		switch variant % 4 {
+		case 0:
+			set(len(enc)-1, 2)
+			what = fmt.Sprintf("last of %d encoded elements set to 2", len(enc))
+		case 1:
+			set(0, 2)
+			what = "first encoded element set to 2"
+		case 2:
+			i := (variant / 4) % len(enc)
+			set(i, 2+uint64(variant/64)%5)
+			what = fmt.Sprintf("encoded element %d of %d set outside {0,1}", i, len(enc))
+		default:
+			if extra != nil {
+				what = extra(enc, set)
+			}
+			if what == "" {
+				set(len(enc)-1, 3)
+				what = fmt.Sprintf("last of %d encoded elements set to 3", len(enc))
+			}
+		}
+		pub, ins, err := shard(enc, nonce, rnd)
+		return pub, ins, what, err
 	}
 }
 
@@ -620,7 +681,8 @@ func exec(planJSON []byte, run *core.Run) {
 				}
 				return n
 			},
-			func(uint64) (bool, bool) { return false, false })
+			func(uint64) (bool, bool) { return false, false },
+			advClient[bool, count.InputShare, count.Vec, count.Fp](vc.VerifEncode, vc.VerifShardEncoded, nil))
 	case "sum":
 		if bits.Len64(p.A) >= 64 {
 			run.Bad("sum bound")
@@ -665,7 +727,8 @@ func exec(planJSON []byte, run *core.Run) {
 					return 0, false
 				}
 				return []uint64{p.A + 1, ^uint64(0), p.A + 1 + s%(^uint64(0)-p.A)}[s%3], true
-			})
+			},
+			advClient[uint64, sum.InputShare, sum.Vec, sum.Fp](vc.VerifEncode, vc.VerifShardEncoded, nil))
 	case "sumvec":
 		l, b, c := uint(p.A), uint(p.B), uint(p.C)
 		if l < 1 || l > 2048 || b < 1 || b > 32 || c < 1 || c > 64 {
@@ -721,7 +784,8 @@ func exec(planJSON []byte, run *core.Run) {
 					return make([]uint64, l+1), true
 				}
 				return make([]uint64, l-1), true
-			})
+			},
+			advClient[[]uint64, sumvec.InputShare, sumvec.Vec, sumvec.Fp](vc.VerifEncode, vc.VerifShardEncoded, nil))
 	case "histogram":
 		l, c := uint(p.A), uint(p.B)
 		if l < 1 || l > 2048 || c < 1 || c > 64 {
@@ -757,7 +821,23 @@ func exec(planJSON []byte, run *core.Run) {
 			},
 			func(s uint64) (uint64, bool) {
 				return []uint64{uint64(l), uint64(l) + 1, ^uint64(0), uint64(l) + s%1000}[s%4], true
-			})
+			},
+			advClient[uint64, histogram.InputShare, histogram.Vec, histogram.Fp](vc.VerifEncode, vc.VerifShardEncoded,
+				func(enc histogram.Vec, set func(int, uint64)) string {
+					// two-hot: a second bucket is incremented as well (every element stays a bit)
+					if len(enc) < 2 {
+						return ""
+					}
+					one := histogram.Fp{}
+					one.SetOne()
+					for i := range enc {
+						if enc[i] != one {
+							set(i, 1)
+							return fmt.Sprintf("two-hot histogram: bucket %d set as well", i)
+						}
+					}
+					return ""
+				}))
 	case "mhcv":
 		l, w, c := uint(p.A), uint(p.B), uint(p.C)
 		if l < 1 || l > 2048 || w < 1 || w > l || c < 1 || c > 64 {
@@ -817,7 +897,29 @@ func exec(planJSON []byte, run *core.Run) {
 					return make([]bool, l+1), true
 				}
 				return make([]bool, l-1), true
-			})
+			},
+			advClient[[]bool, mhcv.InputShare, mhcv.Vec, mhcv.Fp](vc.VerifEncode, vc.VerifShardEncoded,
+				func(enc mhcv.Vec, set func(int, uint64)) string {
+					// weight max+1, reported consistently: by the specification the encoding is the l
+					// entries followed by the bits of (weight + offset), offset = 2^bits - 1 - max; for
+					// weight max+1 that sum is 2^bits, i.e. the top "bit" is 2 and the others are 0
+					nb := bits.Len(uint(w))
+					if uint(len(enc)) != l+uint(nb) || w+1 > l {
+						return ""
+					}
+					for i := uint(0); i < l; i++ {
+						v := uint64(0)
+						if i <= w {
+							v = 1
+						}
+						set(int(i), v)
+					}
+					for i := 0; i < nb; i++ {
+						set(int(l)+i, 0)
+					}
+					set(int(l)+nb-1, 2)
+					return fmt.Sprintf("weight %d > max %d reported consistently (top weight bit = 2)", w+1, w)
+				}))
 	default:
 		run.Bad("type")
 	}
